@@ -105,6 +105,12 @@ def run(ctx):
     for k, v in fd.items():
         built["execfd:" + k] = v
     cfgs = list(cfgs) + ["execfd:" + k for k in fd]
+    # binding mode 2: scalar / enum fields are plain struct fields filled by the parent's resolver
+    try:
+        built["mixed:base"] = gensrv.build_server(ctx, "exec", "base", mixed=True)
+    except RuntimeError as e:
+        built["mixed:base"] = e
+    cfgs = list(cfgs) + ["mixed:base"]
     dist = Counter()
     nontriv = set()
     total = 0
